@@ -52,19 +52,20 @@ theorem C01_success_only_if_acked_step (cfg : Cfg) (st : St) (e : Ev) (s : Sid) 
       | err k => simp [respsOf] at e2
     · cases e1
 
-/-- With acknowledgements disabled: `ok None` is fired only when `req_acks = 0`, on the empty answer
-    of the client to the produce request in flight, to sends of that batch; and never an exception
-    object as a success value (the model has no such transition: F6 is fixed). -/
+/-- With acknowledgements disabled: `ok None` is fired only when `req_acks = 0`, while the client's
+    answer to the produce request in flight is handled (its empty answer, or the failure that exhausts
+    a batchmate's retries), to sends of that batch; and never an exception object as a success value
+    (the model has no such transition: F6 is fixed). -/
 theorem C01_acks0 (cfg : Cfg) (st : St) (e : Ev) (s : Sid) (o : Outcome)
     (h : Ob.fire s o ∈ (step cfg st e).2) :
-    (o = .okNone → cfg.acks = 0 ∧ ∃ rid b r, st.phase = .sending rid b ∧ (r = .none ∨ r = .responses []) ∧
+    (o = .okNone → cfg.acks = 0 ∧ ∃ rid b r, st.phase = .sending rid b ∧
       (e = .produceDone rid r ∨ ∃ w m, e = .stop w (some r) m) ∧ s ∈ b.allSids) ∧
     (∀ k, o ≠ .okExc k) := by
   rcases step_fires_ok cfg st e s o h with ⟨k, hk⟩ | ⟨rid, b, r, h1, h2, _, h4⟩
   · subst hk; exact ⟨fun hc => Outcome.noConfusion hc, fun k hc => Outcome.noConfusion hc⟩
-  · rcases h4 with ⟨resp', e1, _⟩ | ⟨e1, e2, e3, e4⟩
+  · rcases h4 with ⟨resp', e1, _⟩ | ⟨e1, e2, e4⟩
     · subst e1; exact ⟨fun hc => Outcome.noConfusion hc, fun k hc => Outcome.noConfusion hc⟩
-    · subst e1; exact ⟨fun _ => ⟨e2, rid, b, r, h1, e3, h2, e4⟩, fun k hc => Outcome.noConfusion hc⟩
+    · subst e1; exact ⟨fun _ => ⟨e2, rid, b, r, h1, h2, e4⟩, fun k hc => Outcome.noConfusion hc⟩
 
 /-- Otherwise it fails: every other firing of a send's Deferred, by every handler in every state —
     look-up failure, exhausted retries, total failure, no response, user cancel, stop — is `err`. -/
